@@ -270,7 +270,9 @@ def run(tier, seed):
   r = harness.Run(PROP, "model_checking", tier, seed)
   maxbits = 8 if tier == "quick" else 16
   po2bits = 5 if tier == "quick" else 6
-  mvs = [-1, 4.0] if tier == "quick" else [-1, 0.25, 1.0, 4.0, 16.0]
+  # max_value < 1 is left out of the operand lattice: get_exp() over-approximates such types (max exponent floored at 0), which is
+  # recorded separately by the conversion link (finding C16-get-exp-ignores-max-value-le-1) and would only repeat itself here
+  mvs = [-1, 4.0] if tier == "quick" else [-1, 1.0, 4.0, 16.0]
   qi = mods()[2]
   n_paths = 0
   results = []
